@@ -354,6 +354,8 @@ trait Rt: Clone + Sized {
     fn one_flag(&self) -> bool;
     fn int_flag(&self) -> Option<bool>;
     fn neg_flag(&self) -> bool;
+    /// (Display text, the value parsed back from it as parts, Debug text)
+    fn text(&self) -> (String, Option<(BigInt, BigInt)>, String);
     fn from_int(q: IBig) -> Self;
     fn exec(pool: &[Self; POOL], r: &R) -> Prod<Self>;
 }
@@ -433,6 +435,11 @@ macro_rules! impl_rt {
             }
             fn neg_flag(&self) -> bool {
                 self.sign() == Sign::Negative
+            }
+            fn text(&self) -> (String, Option<(BigInt, BigInt)>, String) {
+                let t = format!("{}", self);
+                let back = <$T as std::str::FromStr>::from_str(&t).ok().map(|v| (i2n(v.numerator()), BigInt::from(u2n(v.denominator()))));
+                (t, back, format!("{:?}", self))
             }
             fn from_int(q: IBig) -> Self {
                 <$T>::from(q)
@@ -567,6 +574,30 @@ fn check_val<T: Rt>(out: &mut Out, what: &dyn Fn() -> String, x: &T, m: &Q) -> b
     } else if n.is_even() && d.is_even() {
         out.fail(format!("{}: Relaxed keeps a common factor 2: {}/{}", what(), show_i(&n), show_i(&d)));
         return false;
+    }
+    // text: `n/d` (just `n` for a denominator of 1), which parses back to the same parts
+    if n.bits() + d.bits() <= 1024 {
+        let (t, back, dbg) = x.text();
+        let want = if d.is_one() { format!("{n}") } else { format!("{n}/{d}") };
+        if t != want {
+            out.fail(format!("{}: {} prints as {:?}, its parts are {}", what(), T::NAME, truncate(&t, 80), truncate(&want, 80)));
+            return false;
+        }
+        // RBig: the very same parts; Relaxed: the parser may cancel what the value carried along
+        let same = match &back {
+            Some((bn, bd)) if T::CANON => bn == &n && bd == &d,
+            Some((bn, bd)) => bd >= &BigInt::one() && bn * &d == &n * bd,
+            None => false,
+        };
+        if !same {
+            out.fail(format!("{}: {} printed as {:?} parses back as {:?}", what(), T::NAME, truncate(&t, 80), back.map(|(a, b)| format!("{}/{}", show_i(&a), show_i(&b)))));
+            return false;
+        }
+        // Debug of the big integers elides the middle of long numbers; short ones are printed in full
+        if n.bits() <= 64 && d.bits() <= 64 && dbg != format!("{n} / {d}") {
+            out.fail(format!("{}: {} Debug text {:?} for the parts {n} / {d}", what(), T::NAME, dbg));
+            return false;
+        }
     }
     let (fz, fo, fi, fneg) = (x.zero_flag(), x.one_flag(), x.int_flag(), x.neg_flag());
     if fz != m.is_zero() || fo != m.is_one() || fneg != m.is_negative() || fi.map(|v| v != m.is_integer()).unwrap_or(false) {
